@@ -134,6 +134,7 @@ func isFreshDeep(v ssa.Value, depth int) bool {
 }
 
 func sameBase(a, b ssa.Value) bool {
+	a, b = outerBase(a), outerBase(b)
 	if a == b {
 		return true
 	}
